@@ -2,6 +2,7 @@ SPECIFICATION Spec
 CONSTANTS
   MaxSize = 4
   MaxScope = 3
+  StartScope = 0
   Emit = TRUE
   Prods = {"var","int","str","tt","none","lam","let","app","tup","recxy","arr2","lt","recx","px","py","some","if","mopt"}
 INVARIANTS Emitted
